@@ -2,6 +2,7 @@ package checks
 
 import (
 	"fmt"
+	"strings"
 
 	"verif/internal/fw"
 	"verif/internal/h"
@@ -65,6 +66,37 @@ func c06Faults() []c06Fault {
 			e("sqrt-of-text:"+txt, func() *model.N { return model.CallN(model.BiSqrt, model.Str(txt)) }),
 			e("text-as-index:"+txt, func() *model.N { return model.Idx(id("arr"), model.Str(txt)) }),
 		)
+	}
+	// every misuse of a built-in the reference model calls an error: each built-in on each single argument
+	// of a small pool (empty, emptied and one-element arrays, number, text, nil, empty object, function)
+	{
+		pool := []struct {
+			n string
+			f func() *model.N
+		}{
+			{"[]", func() *model.N { return model.Arr() }},
+			{"emptied", func() *model.N { return model.CallN(model.BiRemove, model.Arr(n(1)), n(0)) }},
+			{"[1]", func() *model.N { return model.Arr(n(1)) }},
+			{"[text]", func() *model.N { return model.Arr(model.Str("s")) }},
+			{"5", func() *model.N { return n(5) }},
+			{"text", func() *model.N { return model.Str("s") }},
+			{"nil", model.Nil},
+			{"{}", func() *model.N { return model.Obj(nil, nil) }},
+			{"function", func() *model.N { return id("f1") }},
+		}
+		for _, b := range model.Builtins {
+			if b == model.BiInput || b == model.BiInputLatin {
+				continue
+			}
+			for _, a := range pool {
+				b, a := b, a
+				mk := func() *model.N { return model.CallN(b, a.f()) }
+				res := (&model.Machine{}).Run(parenAll(append(c06Prelude(), model.ExprS(mk()))))
+				if res.Err != nil && res.Unspec == "" {
+					fs = append(fs, e("builtin-misuse:"+b+":"+a.n, mk))
+				}
+			}
+		}
 	}
 	return append(fs,
 		c06Fault{Name: "stray-break", St: func() []*model.N { return []*model.N{model.Break()} }, Stray: true},
@@ -256,7 +288,13 @@ func C06(c *fw.Ctx) {
 	var rec func()
 	rec = func() {
 		for _, f := range faults {
-			for _, pos := range poss {
+			if strings.HasPrefix(f.Name, "builtin-misuse:") && len(path) > 1 {
+				continue // the generated built-in misuses: every position, under at most one enclosure
+			}
+			for pi, pos := range poss {
+				if strings.HasPrefix(f.Name, "builtin-misuse:") && len(path) == 1 && pi%4 != 0 {
+					continue
+				}
 				if f.E == nil && !pos.StmtPos {
 					continue
 				}
